@@ -1,5 +1,6 @@
 import datetime
 import decimal
+import sys
 import functools
 import math
 import re
@@ -999,7 +1000,17 @@ class ValueInt(Value):
         return self.value < other.value
 
     def __repr__(self):
-        return str(self.value)
+        try:
+            return str(self.value)
+        except ValueError:
+            # beyond the host's default limit for int -> text conversion
+            # (4300 digits): lift the limit for this one conversion
+            limit = sys.get_int_max_str_digits()
+            sys.set_int_max_str_digits(0)
+            try:
+                return str(self.value)
+            finally:
+                sys.set_int_max_str_digits(limit)
 
     def type(self):
         return "int"
